@@ -2,7 +2,8 @@ import Driver.Util
 import Model.BTreeZone
 /-! driver ops of C20 (prefix `c20.`).
 
-`c20.hist <rel> <origin> <variant bits> item…` runs a whole history on one line.  Items:
+`c20.hist <rel> <origin> <variant bits> <init> item…` runs a whole history on one line (`init` = 1 when a new
+zone already holds an empty B-tree version, 0 when only a replacement writer can start).  Items:
 `T<r><c>` begin a transaction (replacement, commit); `p:<name>:<ty>:<cov>` add, `r:…` replace;
 `dn:<name>` delete name; `dr:<name>:<ty>:<cov>` delete rdataset; `dx:<name>:<ty>:<cov>:<hit>` delete rdata;
 `Q:<name>` bounds query on the committed version.  `c20.spec` takes the same items and prints what the
@@ -110,26 +111,77 @@ def stepItem (spec : Bool) (v : Variant) (cfg : Cfg) (s : St) : Item → St
         | .ok b => { s with out := showBounds b :: s.out }
         | .error e => { s with out := ("B" ++ showErr e) :: s.out }
 
-def runLine (spec : Bool) (v : Variant) (cfg : Cfg) (items : List Item) : String :=
-  let s := closeTxn spec cfg (items.foldl (stepItem spec v cfg) { z := none, cur := none, out := [] })
+/-! `c20.guard`: the decidable guards of the theorems of record (`Model.BTZ.opGuard`, `boundsGuard`) along a history -/
+
+structure GSt where
+  z : ZState
+  cur : Option (Option Ver × Bool)
+  ok : Bool                 -- guard of the history so far
+  out : List String
+
+def gClose (s : GSt) : GSt :=
+  match s.cur with
+  | none => s
+  | some (none, _) => { s with cur := none, out := (if s.ok then "g1" else "g0") :: s.out }
+  | some (some ver, c) =>
+    { s with z := endTxn s.z ver c, cur := none, out := (if s.ok then "g1" else "g0") :: s.out }
+
+def gStep (v : Variant) (cfg : Cfg) (s : GSt) : Item → GSt
+  | .txn r c =>
+    let s := gClose s
+    match beginTxn s.z r with
+    | .ok ver => { s with cur := some (some ver, c) }
+    | .error _ => { s with cur := some (none, c) }
+  | .op o =>
+    match s.cur with
+    | some (some ver, c) =>
+      { s with cur := some (some (stepOp v cfg ver o), c), ok := s.ok && opGuard v cfg ver o }
+    | _ => s
+  | .query n =>
+    let s := gClose s
+    match s.z with
+    | none => { s with out := "q1" :: s.out }
+    | some (nodes, delegs) =>
+      let qg := match vname cfg n with
+        | .ok name => boundsGuard v cfg nodes delegs name
+        | .error _ => true
+      { s with out := (if s.ok && qg then "q1" else "q0") :: s.out }
+
+def runGuard (v : Variant) (cfg : Cfg) (z0 : ZState) (items : List Item) : String :=
+  let s := gClose (items.foldl (gStep v cfg) { z := z0, cur := none, ok := true, out := [] })
+  " ".intercalate ("ok" :: s.out.reverse)
+
+def runLine (spec : Bool) (v : Variant) (cfg : Cfg) (z0 : ZState) (items : List Item) : String :=
+  let s := closeTxn spec cfg (items.foldl (stepItem spec v cfg) { z := z0, cur := none, out := [] })
   " ".intercalate ("ok" :: s.out.reverse)
 
 end C20
 
 def handleC20 : List String → Option String
-  | "c20.hist" :: rel :: origin :: vb :: items => do
+  | "c20.hist" :: rel :: origin :: vb :: init :: items => do
     let rel ← parseBool rel
     let origin ← parseName origin
     let v ← C20.parseVariant vb
+    let init ← parseBool init
     let items ← items.mapM C20.parseItem
-    some (C20.runLine false v { origin := origin, relativize := rel } items)
-  | "c20.spec" :: rel :: origin :: items => do
+    some (C20.runLine false v { origin := origin, relativize := rel } (initState init) items)
+  | "c20.guard" :: rel :: origin :: vb :: init :: items => do
+    -- the guards of `flags_eq_spec_partial` / `bounds_eq_spec_partial` along the history: `g1` after a
+    -- transaction while every operation so far met its guard, `q1` for a query that also meets the query guard
+    let rel ← parseBool rel
+    let origin ← parseName origin
+    let v ← C20.parseVariant vb
+    let init ← parseBool init
+    let items ← items.mapM C20.parseItem
+    some (C20.runGuard v { origin := origin, relativize := rel } (initState init) items)
+  | "c20.spec" :: rel :: origin :: init :: items => do
     -- what the *specification* (Model.BTZ.flagsSpec / delegsSpec / boundsSpec) says after each commit and for
     -- each query; compared with the harness' recompute-from-definition oracle
     let rel ← parseBool rel
     let origin ← parseName origin
+    let init ← parseBool init
     let items ← items.mapM C20.parseItem
-    some (C20.runLine true intended { origin := origin, relativize := rel } items)
+    some (C20.runLine true intended { origin := origin, relativize := rel } (initState init) items)
   | _ => none
 
 end Driver
